@@ -28,7 +28,8 @@ REACH = {"quick": {"op:rbind": 2000, "op:rename": 500, "op:colnames": 500, "op:s
 
 OPS = ["rbind", "rbind", "rbind", "select", "unselect", "rename", "cbind", "update", "modify", "colnames"]
 PROMOTE = {"int": ["int", "float", "bool"], "float": ["float", "int", "bool"], "bool": ["bool", "int"], "date": ["date", "datetime"],
-           "datetime": ["datetime", "date"], "str": ["str", "lstr", "ustr"], "lstr": ["lstr", "str"], "ustr": ["ustr", "str"], "obool": ["obool"], "obj": ["obj"]}
+           "datetime": ["datetime", "date"], "str": ["str", "lstr", "ustr"], "lstr": ["lstr", "str"], "ustr": ["ustr", "str"], "obool": ["obool"], "obj": ["obj"],
+           "timedelta": ["timedelta"], "datetime_ns": ["datetime_ns", "datetime"], "uint64": ["uint64"], "float32": ["float32", "float"]}
 NAMES = ["a", "b", "c", "d", "e", "f", "ab", "e_f"]      # some names are substrings of others
 
 def generate(rng, tier):
@@ -49,7 +50,7 @@ def generate(rng, tier):
                 if n in kind_of:
                     kind = rng.choice(PROMOTE[kind_of[n]]) if rng.random() < 0.4 else kind_of[n]
                 else:
-                    kind = rng.choice(["int", "float", "bool", "str", "date", "datetime", "obool", "lstr", "ustr", "obj"])
+                    kind = rng.choice(["int", "float", "bool", "str", "date", "datetime", "obool", "lstr", "ustr", "obj", "timedelta", "datetime_ns", "uint64", "float32"])
                     kind_of[n] = kind
                 spec.append((n, kind, gen.gen_values(rng, kind, nrow, rng.choice(gen.NA_PATTERNS), "few", 0.3, tags)))
             frames.append(spec)
@@ -59,7 +60,7 @@ def generate(rng, tier):
         ncol = rng.randint(1, 5)
         names = rng.sample(NAMES, ncol)
         spec = [(n, k, gen.gen_values(rng, k, nrow, rng.choice(gen.NA_PATTERNS), "few", 0.3, tags))
-                for n, k in ((n, rng.choice(gen.KINDS_KEY + ["obj"])) for n in names)]
+                for n, k in ((n, rng.choice(gen.KINDS_KEY + ["obj", "timedelta", "datetime_ns", "uint64"])) for n in names)]
         case["spec"] = spec
         if op in ("select", "unselect"):
             k = rng.randint(0 if op == "unselect" else 1, ncol)
